@@ -2,7 +2,7 @@
 
    The identity probe accepts every a s + b with |a - 1| <= 5e-6 and |b| <= 5e-6 (C10_probe_sound_partial, inner box).  For such a
    dependence with b > 0 the posterior in s is proportional to (a s + b)^(n/2) exp(-(a s + b) q / 2) s^(alpha-1) exp(-beta s): no
-   Gamma(k, r) is proportional to it (n > 0).  So inside the affine class the probe's tolerance admits targets outside the conjugate
+   Gamma(k, r) is proportional to it (n > 0).  So inside the affine class the tolerance of the probe lets in targets outside the conjugate
    structure -- whatever Gamma the sampler draws from, it is not the conditional.  (Inside the monomial class it does not:
    Proofs/C10_MonoExact.v.)  Proof: second differences along s, 2s, 4s kill the ln s and linear terms of any Gamma and leave
    N E(s) + B s = 0 with E(s) = ln((a s + b)(4 a s + b) / (2 a s + b)^2), and 0 < E(s) < b / (4 a s). *)
@@ -109,6 +109,17 @@ Corollary gauss_prec_affine_sampler_not_exact prec_fun a b Ax Bv alpha beta :
   ~ proportional_on_pos (post (lik_gauss_prec prec_fun Ax Bv) alpha beta)
       (sampler_logpdf lnGamma (length Bv) (sqrtprec_of (from_prec_scalar (length Bv) (prec_fun 1))) Ax Bv alpha beta).
 Proof. intros Ha Hb Hf Hl Hn. unfold sampler_logpdf. apply (gauss_prec_affine_never_gamma prec_fun a b); assumption. Qed.
+(* GMRF(mean = Ax, prec = a s + b), stored rank > 0: the same *)
+Theorem gmrf_affine_never_gamma prec_fun a b rank logdet P Ax Bv alpha beta k r :
+  0 < a -> 0 < b -> (forall s, 0 < s -> prec_fun s = a * s + b) -> (0 < rank)%nat ->
+  ~ proportional_on_pos (post (lik_gmrf prec_fun rank logdet P Ax Bv) alpha beta) (gpdf k r).
+Proof.
+  intros Ha Hb Hf Hr.
+  apply (affine_posterior_never_gamma _ (INR rank / 2) a b (Rdot (Rvsub Bv Ax) (Rmatvec P (Rvsub Bv Ax)) / 2)
+           (1 / 2 * (logdet - INR rank * ln (2 * PI)))); try assumption.
+  - apply Rdiv_lt_0_compat; [apply lt_0_INR; exact Hr | lra].
+  - intros s Hs. unfold lik_gmrf, gmrf_logpdf. rewrite (Hf s Hs). field.
+Qed.
 End Affine.
 
 (* the class is inside what the identity probe accepts: s + 2^-20 passes (and is a tree the harness runs: cell probe/s+2^-20) *)
